@@ -258,12 +258,57 @@ def _strictly_advances(e: Optional[ast.AST], vars_: Set[str], field: str, ctx: C
     a local variable all of whose reaching definitions are accepted."""
     if e is None or depth > 6:
         return False
+    g0 = ctx.cfg(f)
+
+    def is_field(a: ast.AST) -> bool:
+        """X.f itself, or a local / helper parameter every definition of which is X.f (or `X.f if X else None`: absent => None)"""
+        if isinstance(a, ast.Attribute) and a.attr == field and dotted(a.value) in vars_:
+            return True
+        if isinstance(a, ast.IfExp):
+            tn_ = dotted(a.test) or (dotted(a.test.left) if isinstance(a.test, ast.Compare) and a.test.left is not None else None)
+            if tn_ in vars_:
+                neg_ = isinstance(a.test, ast.Compare) and isinstance(a.test.ops[0], ast.Is)
+                good_, other_ = (a.orelse, a.body) if neg_ else (a.body, a.orelse)
+                return is_field(good_) and isinstance(other_, ast.Constant) and other_.value is None
+            return False
+        if isinstance(a, ast.Name):
+            ds = [d for d in ctx.rd(f).reaching(at, a.id)]
+            if not ds or g0.entry in ds:
+                return False
+            return all(isinstance(g0.nodes[d].ast, ast.Assign) and len(g0.nodes[d].ast.targets) == 1
+                       and isinstance(g0.nodes[d].ast.targets[0], ast.Name) and is_field(g0.nodes[d].ast.value) for d in ds)
+        return False
+
+    def positive(b: ast.AST) -> bool:
+        if isinstance(b, ast.Constant):
+            return isinstance(b.value, int) and not isinstance(b.value, bool) and b.value > 0
+        from .common import concrete_eval, UNKNOWN
+        v = concrete_eval(ctx, f, b, {}, at)  # a named step: `_STEP_MS`, `_duration_ms(timedelta(milliseconds=1))`
+        return v is not UNKNOWN and isinstance(v, int) and not isinstance(v, bool) and v > 0
+
     if isinstance(e, ast.BinOp) and isinstance(e.op, ast.Add):
         for a, b in ((e.left, e.right), (e.right, e.left)):
-            if isinstance(a, ast.Attribute) and a.attr == field and dotted(a.value) in vars_ \
-                    and isinstance(b, ast.Constant) and isinstance(b.value, int) and b.value > 0:
+            if is_field(a) and positive(b):
                 return True
         return False
+    if isinstance(e, ast.Call) and id(e) in g0.inline_returns:
+        # the stamp is computed by a helper analysed in place: every value it returns advances - except on the return that is
+        # taken only when the validated version is absent (`if previous is None: return now()`)
+        from .common import facts_at
+        outs = g0.inline_returns[id(e)]
+        if not outs:
+            return False
+        for rexpr, rn in outs:
+            absent = False
+            for pol, fe, _a in facts_at(ctx, f, g0.nodes[rn]):
+                if pol == "true" and isinstance(fe, ast.Compare) and len(fe.ops) == 1 and isinstance(fe.ops[0], ast.Is) \
+                        and isinstance(fe.comparators[0], ast.Constant) and fe.comparators[0].value is None and is_field_at(fe.left, rn, vars_, field, ctx, f):
+                    absent = True
+            if absent:
+                continue
+            if rexpr is None or not _strictly_advances(rexpr, vars_, field, ctx, f, rn, depth + 1):
+                return False
+        return True
     if isinstance(e, ast.Call) and isinstance(e.func, ast.Name) and e.func.id == "max":
         return any(_strictly_advances(a, vars_, field, ctx, f, at, depth + 1) for a in e.args)
     if isinstance(e, ast.IfExp):
@@ -291,6 +336,29 @@ def _strictly_advances(e: Optional[ast.AST], vars_: Set[str], field: str, ctx: C
                     ok = False
         return ok
     return False
+
+
+def is_field_at(a: ast.AST, at: int, vars_: Set[str], field: str, ctx: Ctx, f: FunctionInfo) -> bool:
+    """`a` (a name tested against None) stands for the validated field: every definition reaching `at` is `X.f if X else None`."""
+    g = ctx.cfg(f)
+    if not isinstance(a, ast.Name):
+        return False
+    ds = ctx.rd(f).reaching(at, a.id)
+    if not ds or g.entry in ds:
+        return False
+    for d in ds:
+        v = g.nodes[d].ast.value if isinstance(g.nodes[d].ast, ast.Assign) else None
+        if not isinstance(v, ast.IfExp):
+            return False
+        tn = dotted(v.test) or (dotted(v.test.left) if isinstance(v.test, ast.Compare) and v.test.left is not None else None)
+        if tn not in vars_:
+            return False
+        neg = isinstance(v.test, ast.Compare) and isinstance(v.test.ops[0], ast.Is)
+        good, other = (v.orelse, v.body) if neg else (v.body, v.orelse)
+        if not (isinstance(good, ast.Attribute) and good.attr == field and dotted(good.value) in vars_
+                and isinstance(other, ast.Constant) and other.value is None):
+            return False
+    return True
 
 
 def _guarded_by_step_branch(ctx: Ctx, f: FunctionInfo, var: str, d: int, at: int, vars_: Set[str], field: str) -> bool:
